@@ -202,6 +202,10 @@ OuterLoop:
 					return "", errors.New("invalid format string")
 				}
 			}
+			if i >= len(format) {
+				// The format string ended before a verb was found
+				return "", errors.New("invalid format string")
+			}
 			args[j] = arg
 			j++
 		}
